@@ -955,6 +955,7 @@ impl<'a> Interp<'a> {
                 Ok(V::Arr(Rc::new(v)))
             }
             (V::Obj(a), V::Obj(b)) => Ok(V::Obj(self.extend(*a, *b)?)),
+            (V::StdObj, V::Obj(_) | V::StdObj) | (V::Obj(_), V::StdObj) => Err(RErr::Unsupported("std as an operand of +")),
             _ => Err(RErr::Other("type")),
         }
     }
@@ -1009,6 +1010,7 @@ impl<'a> Interp<'a> {
                         let top = self.top_layer(*o);
                         Ok(V::Bool(self.find(*o, s, top).is_some()))
                     }
+                    (V::Str(_), V::StdObj) => Err(RErr::Unsupported("in std")),
                     _ => Err(RErr::Other("type")),
                 };
             }
